@@ -103,6 +103,15 @@ func (w *World) flowSinks(src ssa.Value) []flowSink {
 					if cv, ok := x.(*ssa.Call); ok {
 						visit(cv)
 					}
+				} else if cv, ok := x.(*ssa.Call); ok {
+					// a module helper that hands one of its parameters on to its result
+					if callee := c.StaticCallee(); callee != nil && callee.Blocks != nil && w.InModule(callee) {
+						for i, a := range c.Args {
+							if a == v && i < len(callee.Params) && w.paramReachesReturn(callee, i) {
+								visit(cv)
+							}
+						}
+					}
 				}
 			}
 		}
@@ -110,6 +119,26 @@ func (w *World) flowSinks(src ssa.Value) []flowSink {
 	visit(src)
 	sort.Slice(sinks, func(i, j int) bool { return sinks[i].String() < sinks[j].String() })
 	return sinks
+}
+
+// paramReachesReturn: the value of parameter i of f can flow (flowSinks rules) to a result of f.
+func (w *World) paramReachesReturn(f *ssa.Function, i int) bool {
+	k := [2]interface{}{f, i}
+	if v, ok := w.prrMemo[k]; ok {
+		return v
+	}
+	if w.prrMemo == nil {
+		w.prrMemo = map[[2]interface{}]bool{}
+	}
+	w.prrMemo[k] = false
+	out := false
+	for _, s := range w.flowSinks(f.Params[i]) {
+		if s.Kind == "return" && s.Pos.Parent() == f {
+			out = true
+		}
+	}
+	w.prrMemo[k] = out
+	return out
 }
 
 func sinkSet(s []flowSink) map[string]bool {
